@@ -176,6 +176,7 @@ def replay(prop, path):
     mod = tsadrive.load_statements(srcs)
     a, b = mod.Obj(), mod.Obj()
     a.x, a.y, b.x = 2, 3, 1
+    a.l = [1, 2, 3]
     bad = []
     for r in case["sequence"]:
       try:
@@ -184,7 +185,8 @@ def replay(prop, path):
         continue
       except Exception as ex:  # noqa
         bad.append("Raised:%s:%s" % (r[1], type(ex).__name__))
-      cx, cy = tsadrive.lock_state(tsadrive.lock_of(mod, "Obj", "x"))[0], tsadrive.lock_state(tsadrive.lock_of(mod, "Obj", "y"))[0]
+      cx, cy = tsadrive.lock_state(tsadrive.lock_of(mod, "Obj", "x"))[0], (tsadrive.lock_state(tsadrive.lock_of(mod, "Obj", "y"))[0]
+                                                                                  + tsadrive.lock_state(tsadrive.lock_of(mod, "Obj", "l"))[0])
       if cx or cy:
         bad.append("LockHeld:%s" % r[1])
         break
